@@ -587,6 +587,55 @@ def f2_single_operation(which: str):
 
 
 # ----------------------------------------------------------------------
+# S3 the local wrappers compute the operation their engine method is named after
+
+# wrapper -> what it must return, as a term over its parameters.  Frozen from the MPFR / gmpy2 documentation:
+#   gmpy2.lgamma(x) returns (log|gamma(x)|, sign); the C / FPCore `lgamma` is the first component.
+#   gmpy2.lngamma(x) is log(gamma(x)) and is NaN wherever gamma(x) < 0, so it is NOT a substitute.
+WRAPPER_ORACLE = {
+    '_gmp_neg': "neg(x)",
+    '_gmp_abs': "abs(x)",
+    '_gmp_pow': "pow(x, y)",
+    '_gmp_lgamma': "gmp.lgamma(x)[0]",
+}
+
+
+def s3_wrapper_primitives(ctx: Ctx):
+    from ..symenv import execute, show
+    mod = ctx.repo.module(GMP)
+    found = 0
+    for name, want in WRAPPER_ORACLE.items():
+        fn = mod.toplevel().get(name)
+        if not isinstance(fn, ast.FunctionDef):
+            raise ShapeError(f'{name} not found in {GMP}')
+        found += 1
+        ctx.functions_analysed.add((GMP, name))
+        rets = [s for s in ast.walk(fn) if isinstance(s, ast.Return)]
+        got = None
+        if len(rets) == 1 and rets[0].value is not None:
+            v = rets[0].value
+            # resolve one level of local names (y, _ = gmp.lgamma(x); return y)
+            ex = execute(fn, {}, {})
+            t = ex.returns[0][0] if ex.returns else None
+            txt = show(t)
+            if isinstance(v, ast.UnaryOp) and isinstance(v.op, ast.USub):
+                got = f'neg({norm(v.operand)})'
+            elif isinstance(v, ast.BinOp) and isinstance(v.op, ast.Pow):
+                got = f'pow({norm(v.left)}, {norm(v.right)})'
+            elif isinstance(v, ast.Call) and call_name(v) == 'abs':
+                got = f'abs({norm(v.args[0])})'
+            elif txt.startswith('proj(0, gmp.lgamma(x)') or txt in ('gmp.lgamma(x)[0]',):
+                got = 'gmp.lgamma(x)[0]'
+            else:
+                got = txt
+        ctx.check(got == want, GMP, fn, name, f'{name} returns {want}',
+                  f'returns {got}: the engine method named after this operation would compute something else'
+                  + (' (lngamma is log(gamma(x)), NaN where gamma(x) < 0; lgamma is log|gamma(x)|)' if name == '_gmp_lgamma' else ''))
+    if found < 4:
+        raise ShapeError('wrapper functions missing')
+
+
+# ----------------------------------------------------------------------
 # C03.T1 constants table complete
 
 def t_constants(ctx: Ctx):
